@@ -889,7 +889,12 @@ fn print_runtype(schema: &Runtype, named_schemas: &[NamedSchema], ctx: &mut Prin
                 vec![
                     Expr::Lit(Lit::Regex(Regex {
                         span: DUMMY_SP,
-                        exp: t.regex_expr().into(),
+                        // an empty pattern would be printed `//`, a line comment: the empty regular expression is `(?:)`
+                        exp: match t.regex_expr() {
+                            exp if exp.is_empty() => "(?:)".to_string(),
+                            exp => exp,
+                        }
+                        .into(),
                         flags: "".into(),
                     })),
                     Expr::Lit(Lit::Str(Str {
